@@ -2342,3 +2342,70 @@ func H_C06_restartMapped(full int) {
 	}
 	vsDiskMode, vsDisk = false, nil
 }
+
+// H_C06_splitRetry(n1, n2): the split job of a stage wrote a _stage_defs with
+// n1 chunks and then failed (killed before _complete, or failed by the monitor
+// afterwards).  mrp is restarted: the fork object is built from the directory
+// (NewFork / updateId read the _stage_defs which is there), the metadata is
+// loaded, Pipestance.Reset discards the failed attempt.  The split runs again
+// and - the fault being removed - defines n2 chunks; the fork is stepped.
+//
+//	C06/C03: the chunks created and submitted are exactly the n2 chunks which
+//	     the split that completed defined: none left over from the failed
+//	     attempt, none missing.
+func H_C06_splitRetry(n1, n2 int) {
+	disableUniquification = false
+	vsGlobFromCache = true
+	top := vsTop()
+	top.rt.Config.JobMode = localMode
+	top.rt.Config.FullStageReset = false
+	p := vsPipelineNode(top, nil, "ID.ps.P", "P")
+	p.parent = top
+	node, f0 := vsStageNode(top, "S", true)
+	node.parent = p
+	p.subnodes["S"] = node
+	// the re-attached mrp builds the fork from what is on disk
+	vsDiskMode, vsDisk = true, map[string]map[MetadataFileName]struct{}{}
+	for _, name := range []MetadataFileName{StageDefsFile, Errors, JobInfoFile, LogFile} {
+		vsDiskAdd(f0.split_metadata.path, name)
+	}
+	vsChunks = n1
+	vsDefsErr = false
+	f := NewFork(node, 0, nil)
+	node.forks = []*Fork{f}
+	vsPidZero, vsPidDead, vsJobInfoErr = false, true, false
+	ps := &Pipestance{node: p, metadata: NewMetadata("ID.ps", "/ps")}
+	ps.metadata.contents[Lock] = struct{}{}
+	node.loadMetadata()
+	verifAssert(node.state == Failed, "C06: the stage is failed before the restart")
+	p.state = Running
+	err := ps.Reset()
+	verifAssert(err == nil, "the reset succeeds when the file system does")
+	verifAssert(node.getState() != Failed, "C06: once the fault is removed a restart clears the failed split")
+	// the new split attempt completes with n2 chunks
+	vsDisk[f.split_metadata.path] = map[MetadataFileName]struct{}{}
+	for _, name := range []MetadataFileName{StageDefsFile, CompleteFile, JobInfoFile, LogFile} {
+		vsDiskAdd(f.split_metadata.path, name)
+		f.split_metadata.contents[name] = struct{}{}
+	}
+	vsChunks = n2
+	vsExec = nil
+	vsDisabled, vsResolveErr = false, false
+	f.step()
+	verifCover("split retried with another chunk count")
+	verifAssert(len(f.chunks) == n2, "C06/C03: after a failed split was re-run, the fork has exactly the chunks which the completed split defined")
+	for i, c := range f.chunks {
+		verifAssert(c.index == i, "chunks are numbered in order")
+		verifAssert(vsExecCount(c.metadata) == 1, "C03: every chunk the completed split defined is submitted once")
+	}
+	n := 0
+	for _, e := range vsExec {
+		if e != f.split_metadata && e != f.join_metadata {
+			n++
+		}
+	}
+	if n2 > 0 {
+		verifAssert(n == n2, "C03: no chunk which the completed split did not define is submitted")
+	}
+	vsDiskMode, vsDisk = false, nil
+}
